@@ -90,6 +90,7 @@ theorem astep_kstep {s s' : Sys} {a : Act} (h : astep s a = some s') : KStep s.k
   case txnPinned th m t => simp only [stepTxnPinned] at h; kstep_auto
   case txnLocked th => simp only [stepTxnLocked] at h; kstep_auto
   case lockBegin th => simp only [stepLockBegin] at h; kstep_auto
+  case scanBatch th n => simp only [stepScanBatch] at h; kstep_auto
   case commitBegin th => simp only [stepCommitBegin] at h; kstep_auto
   case commitA th => simp only [stepCommitA] at h; kstep_auto
   case append th => simp only [stepAppend] at h; kstep_auto
